@@ -393,6 +393,40 @@ func cgenEnumerate(t reflect.Type, k int, cx cgenCtx, f func(devs []cgenDev, v r
 	rec(nil, 0)
 }
 
+// cgenComplete: the deviations of a "structurally complete" value of t on top of base: every list
+// has one element, every optional is set, every map has one key, every blob/string is non-empty,
+// repeated until no new choice point appears (variant tags keep their base/default option).
+func cgenComplete(t reflect.Type, base []cgenDev, cx cgenCtx) []cgenDev {
+	devs := append([]cgenDev(nil), base...)
+	have := map[string]bool{}
+	for _, d := range devs {
+		have[d.P] = true
+	}
+	for round := 0; round < 12; round++ {
+		_, pts := cgenBuild(t, devs, cx)
+		added := false
+		for _, p := range pts {
+			if have[p.Path] || strings.HasSuffix(p.Path, "#tag") || !cgenDevStructural(cgenDev{p.Path, 1}) {
+				continue
+			}
+			o := 1
+			if strings.HasSuffix(p.Path, "~") {
+				o = 2 // the 2-byte blob / 130-char string would do too; 2 bytes keeps the seed small
+				if p.N <= 2 {
+					o = 1
+				}
+			}
+			have[p.Path] = true
+			devs = append(devs, cgenDev{p.Path, o})
+			added = true
+		}
+		if !added {
+			break
+		}
+	}
+	return devs
+}
+
 // cgenGroups lists the first-level deviations of t (the sharding unit): group 0
 // is the minimal value alone; group g>0 is "first deviation = g-th (point,option)"
 // with everything that extends it.
@@ -808,6 +842,10 @@ type cgenSeed struct {
 	structural bool // every deviation changes the shape of the encoding (see cgenDevStructural)
 	ext        bool // built with the extended integer domain
 	prefixOnly bool // mutation set = the proper prefixes only (compact-tail seeds)
+	// complete seeds: every replacement byte 0..255 at every position, the work split into
+	// position ranges [posFrom, posTo) so that one large seed spreads over the shards
+	fullLattice     bool
+	posFrom, posTo int
 }
 
 // Val rebuilds the seed value (*T) from its deviations.
@@ -823,6 +861,10 @@ func (s cgenSeed) Mutations(thorough bool, f func(m cgenMut)) {
 		for p := 0; p < len(s.enc); p++ {
 			f(cgenMut{Kind: "prefix", Pos: p})
 		}
+		return
+	}
+	if s.fullLattice {
+		cgenMutationsRange(s.enc, true, s.posFrom, s.posTo, f)
 		return
 	}
 	cgenMutations(s.enc, thorough && s.structural, f)
@@ -842,6 +884,9 @@ type cgenSeedRec struct {
 	S bool      `json:"s,omitempty"`
 	X bool      `json:"x,omitempty"`
 	P bool      `json:"po,omitempty"`
+	F bool      `json:"fl,omitempty"`
+	A int       `json:"pa,omitempty"`
+	B int       `json:"pb,omitempty"`
 }
 
 // cgenSaveSeeds / cgenLoadSeeds: the parent hands its (sharded) seed list to the
@@ -850,7 +895,7 @@ func cgenSaveSeeds(path string, seeds []cgenSeed) error {
 	var buf bytes.Buffer
 	w := json.NewEncoder(&buf)
 	for _, s := range seeds {
-		if err := w.Encode(cgenSeedRec{s.ct.Name, s.devs, vlib.Hex(s.enc), s.unit, s.structural, s.ext, s.prefixOnly}); err != nil {
+		if err := w.Encode(cgenSeedRec{s.ct.Name, s.devs, vlib.Hex(s.enc), s.unit, s.structural, s.ext, s.prefixOnly, s.fullLattice, s.posFrom, s.posTo}); err != nil {
 			return err
 		}
 	}
@@ -873,7 +918,7 @@ func cgenLoadSeeds(path string) ([]cgenSeed, error) {
 		if ct == nil {
 			return nil, fmt.Errorf("cgen: unknown type %s in seed file", rec.T)
 		}
-		out = append(out, cgenSeed{ct, rec.D, vlib.Unhex(rec.E), rec.U, rec.S, rec.X, rec.P})
+		out = append(out, cgenSeed{ct: ct, devs: rec.D, enc: vlib.Unhex(rec.E), unit: rec.U, structural: rec.S, ext: rec.X, prefixOnly: rec.P, fullLattice: rec.F, posFrom: rec.A, posTo: rec.B})
 	}
 	return out, nil
 }
@@ -1040,8 +1085,13 @@ func cgenHot(ct *cgenType, s []byte, p int) bool {
 // error or a recoverable panic (2^56, 2^64-1: no allocator satisfies them), the
 // prefix, the replacements, and last the insertions 2^31 and 2^32.
 func cgenMutations(s []byte, full bool, f func(m cgenMut)) {
+	cgenMutationsRange(s, full, 0, len(s)+1, f)
+}
+
+// cgenMutationsRange: the mutations at positions from <= p < to only.
+func cgenMutationsRange(s []byte, full bool, from, to int, f func(m cgenMut)) {
 	ins := func(p int, v uint64) { f(cgenMut{Kind: "ins", Pos: p, Val: vlib.Hex(cgenNat(v))}) }
-	for p := 0; p <= len(s); p++ {
+	for p := from; p <= len(s) && p < to; p++ {
 		ins(p, 1<<16)
 		ins(p, 1<<56)
 		ins(p, ^uint64(0))
